@@ -190,14 +190,9 @@ func (sc *StateCache) Get(key, blockHash string) (Value, bool) {
 
 		// // save into current block cache when it's 20 rounds behind
 		// if count >= 20 {
-		bvsi, err := lru.New(200)
-		if err != nil {
-			panic(err)
-		}
-
-		bvsi.Add(oldBlockHash, v)
-
-		sc.cache.Add(key, bvsi)
+		// memoise into the key's existing block map: replacing the map would drop the
+		// values committed by other blocks
+		bvs.Add(oldBlockHash, v)
 		// logging.Logger.Debug("state cache - migrate from previous block",
 		// 	zap.String("key", key),
 		// 	zap.Int("depth", count))
